@@ -1343,6 +1343,7 @@ def run(ctx):
         ctx.degrade("field seam unusable (%s): payload faults reduced and sent through from_stream" % _SEAM_ERROR)
     # undamaged baseline must be clean, otherwise nothing below means anything
     base = Acc()
+    _ORIG_AS = resource.getrlimit(resource.RLIMIT_AS)
     init_limits()
     for fc in _FILES:
         ex = run_public(base, fc, ("S", ()), lambda ids: ids)
@@ -1356,6 +1357,14 @@ def run(ctx):
     if not wd[1]:
         ctx.degrade("RLIMIT_AS not effective: memory exhaustion is not detected")
     ctx.merge_part("baseline", base)
+    # the limit was armed in this (the driver) process for the baseline and the self-test only: lift it again, every worker
+    # arms its own at its first shard (measured after the fork, so the enumeration plan held in memory does not count)
+    global _LIMITS_SET
+    try:
+        resource.setrlimit(resource.RLIMIT_AS, _ORIG_AS)
+    except (ValueError, OSError):
+        pass
+    _LIMITS_SET = False
     notes = {}
     items = plan(ctx.tier, ctx.seed, seam_ok, notes)
     only = getattr(ctx, "only", None)
